@@ -292,6 +292,15 @@ fn nth_desc(mut i: u64, ps: &[Ty], rets: &[Option<Ty>]) -> Desc {
     Desc { params, ret }
 }
 
+/// The mass alphabet's i-th descriptor (used by C20's shared-instance mass stage to cross-check its fast composer).
+pub fn nth_desc_pub(i: u64) -> Desc {
+    let (mut ps, rets) = exhaustive_alphabet();
+    ps.push(Ty::Obj("é/ü".into()));
+    ps.push(Ty::Prim('Z'));
+    ps.push(Ty::Obj("zz/U".into()));
+    nth_desc(i, &ps, &rets)
+}
+
 pub fn check_mass(c: &MassChunk, st: &mut Stats) -> Check {
     let bytes = FIXED_MAPPING.as_bytes();
     let m = mapper(bytes, false)?;
